@@ -522,6 +522,9 @@ func c16LiteralPrograms() []string {
 		"m := {x:1}\nn := {x:1 y:2}\ncnt := 0\nfor i := range 10\n    if m == n\n        cnt = cnt + 1\n    end\n    if m != n\n        cnt = cnt + 10\n    end\nend\ncnt = cnt\n",
 		"a := {x:1}\nb := {x:1 y:2}\neq := a == b\nne := a != b\neq = eq\nne = ne\n", "a := {x:1 y:2}\nb := {x:1}\neq := a == b\nne := a != b\neq = eq\nne = ne\n",
 		"a := {x:1}\nb := {x:1 y:2}\nn := 0\nif a == b\n    n = 1\nelse\n    n = 10\nend\nn = n\n", "a := {x:1}\nb := {x:1}\nb.y = 2\nm := [a] == [b]\nm = m\n",
+		// NaN and the infinities as operands of every comparison (no library call yields them on the VM: overflow, then Inf - Inf)
+		"x := 10\nfor range 12\n    x = x * x\nend\nnan := x - x\nninf := 0 - x\nr0 := nan < 1\nr1 := 1 < nan\nr2 := nan < nan\nr3 := nan < x\nr4 := x < nan\nr5 := ninf < nan\nr6 := x < x\nr7 := ninf < x\nr8 := nan <= 1\nr9 := 1 <= nan\nr10 := nan <= nan\nr11 := nan <= x\nr12 := x <= nan\nr13 := ninf <= nan\nr14 := x <= x\nr15 := ninf <= x\nr16 := nan > 1\nr17 := 1 > nan\nr18 := nan > nan\nr19 := nan > x\nr20 := x > nan\nr21 := ninf > nan\nr22 := x > x\nr23 := ninf > x\nr24 := nan >= 1\nr25 := 1 >= nan\nr26 := nan >= nan\nr27 := nan >= x\nr28 := x >= nan\nr29 := ninf >= nan\nr30 := x >= x\nr31 := ninf >= x\nr32 := nan == 1\nr33 := 1 == nan\nr34 := nan == nan\nr35 := nan == x\nr36 := x == nan\nr37 := ninf == nan\nr38 := x == x\nr39 := ninf == x\nr40 := nan != 1\nr41 := 1 != nan\nr42 := nan != nan\nr43 := nan != x\nr44 := x != nan\nr45 := ninf != nan\nr46 := x != x\nr47 := ninf != x\nr0 = r0\nr1 = r1\nr2 = r2\nr3 = r3\nr4 = r4\nr5 = r5\nr6 = r6\nr7 = r7\nr8 = r8\nr9 = r9\nr10 = r10\nr11 = r11\nr12 = r12\nr13 = r13\nr14 = r14\nr15 = r15\nr16 = r16\nr17 = r17\nr18 = r18\nr19 = r19\nr20 = r20\nr21 = r21\nr22 = r22\nr23 = r23\nr24 = r24\nr25 = r25\nr26 = r26\nr27 = r27\nr28 = r28\nr29 = r29\nr30 = r30\nr31 = r31\nr32 = r32\nr33 = r33\nr34 = r34\nr35 = r35\nr36 = r36\nr37 = r37\nr38 = r38\nr39 = r39\nr40 = r40\nr41 = r41\nr42 = r42\nr43 = r43\nr44 = r44\nr45 = r45\nr46 = r46\nr47 = r47\n",
+		"x := 10\nfor range 12\n    x = x * x\nend\nnan := x - x\nninf := 0 - x\nc := 0\nif nan < 1\n    c = c + 1\nend\nif nan <= nan\n    c = c + 10\nend\nif 1 >= nan\n    c = c + 100\nend\nif nan > x\n    c = c + 1000\nend\nwhile nan < c\n    c = c + 1\nend\nc = c\n",
 		"s := \"1\"\nn := 1 + 2\ns = s\nn = n\n",
 		"n := 1 + 2\ns := \"1\" + \"2\"\ns = s\nn = n\n",
 		"z := \"0\"\nx := 0\nfor e := range [5 6]\n    x = x + e\nend\nz = z\nx = x\n",
